@@ -149,6 +149,7 @@ func runC01(h *Harness, child *rig.Child, c *C01Case, obs *c01Obs) *Failure {
 
 	lastArg := 0   // numeric argument shown by the hint at the last wait of the main loop
 	lastMain := -1 // index of the step after which that wait happened
+	whole := map[int]bool{}
 	curStep := -1
 
 	note := func(st *rig.Stop) {
@@ -267,7 +268,11 @@ func runC01(h *Harness, child *rig.Child, c *C01Case, obs *c01Obs) *Failure {
 
 				// digits typed since that wait (also inside sequences a command
 				// read key by key) may have become an argument meanwhile
-				for _, sp := range c.Steps[min(lastMain+1, i):i] {
+				for si, sp := range c.Steps[:i] {
+					if si <= lastMain || whole[si] {
+						continue
+					}
+
 					val := 0
 
 					for _, b := range sp.bytes(e) {
@@ -329,6 +334,7 @@ func runC01(h *Harness, child *rig.Child, c *C01Case, obs *c01Obs) *Failure {
 			continue
 		}
 
+		start := i
 		data := step.bytes(e)
 
 		for c.Merge != nil && i < len(c.Merge) && c.Merge[i] && i+1 < len(c.Steps) && c.Steps[i+1].Fault == "" && len(data)+len(c.Steps[i+1].bytes(e)) <= 900 {
@@ -342,6 +348,16 @@ func runC01(h *Harness, child *rig.Child, c *C01Case, obs *c01Obs) *Failure {
 
 		st = s.Send(data)
 		note(st)
+
+		// a step whose own command is in the log was dispatched as a whole: the
+		// digits of its key sequence did not become a numeric argument
+		if start == i && (c.Steps[i].Note != "" || c.Steps[i].Cmd != "") {
+			for _, ev := range st.Cmds {
+				if ev.Ev == "cmd" && (ev.Name == c.Steps[i].Note || ev.Name == c.Steps[i].Cmd) {
+					whole[i] = true
+				}
+			}
+		}
 
 		if f := stopFailure(st); f != nil {
 			f.Msg = ctx(i) + ": " + f.Msg
